@@ -530,6 +530,8 @@ def make_termination(name):
         return T.GradientNormTolerance(1e-3)
     if name == 'collapse':      # Solve() applies the collapse (fixes the parameter) and goes on
         return T.Or(T.ChangeOverGeneration(1e-9, 8), T.CollapseAt(None, 1e-3, 3))
+    if name == 'collapse2':     # the same with a mask the user already filled (a parameter excluded from collapsing)
+        return T.Or(T.ChangeOverGeneration(1e-9, 8), T.CollapseAt(None, 1e-3, 3, mask={0}))
     raise ValueError(name)
 
 
